@@ -948,6 +948,24 @@ func TestVerifC07Commit(t *testing.T) {
 			valsD = []string{"(1,0,1)", "(2,1,0)"}
 			nRuns++
 		}
+		// Seed C07f: a validator set that arrives over the wire (light blocks, evidence, the state
+		// store) carries a total_voting_power field that no hash covers.  One set in four is
+		// taken through ToProto / ValidatorSetFromProto with that field forged; whatever the
+		// field says, the decoded set must verify commits exactly like the set it encodes (the
+		// model's total is the sum of the members' powers).  A set the decoder refuses is used as built.
+		if wf && k > 0 && r.Chance(25) {
+			enc := c07MakeSet(vals)
+			enc.Proposer = enc.Validators[0]
+			if pb, err := enc.ToProto(); err == nil && pb != nil {
+				forged := []int64{1, total.Int64() / 4, total.Int64() / 2, total.Int64() - 1, total.Int64() + 1, MaxTotalVotingPower}[r.Intn(6)]
+				pb.TotalVotingPower = forged
+				if dec, err := ValidatorSetFromProto(pb); err == nil && dec != nil && len(dec.Validators) == len(vals) {
+					vs = dec
+					dist += fmt.Sprintf("+via-proto(total_voting_power field forged to %d, real sum %s)", forged, total)
+					cs.Count("set/via-forged-proto", 1)
+				}
+			}
+		}
 		for j := 0; j < nRuns; j++ {
 			g := k*runsPer + j
 			var run *c07Run
